@@ -99,84 +99,109 @@ Section MruBridge.
   Proof. intros L. apply vset_inv; auto. Qed.
   Lemma vset_upd A w (l : list A) i x y : i < List.length l -> vset w (upd_nth i x l) i y = Ok (upd_nth i y l).
   Proof. intros L. rewrite vset_lt by (rewrite upd_nth_length; auto). rewrite upd_nth_twice. auto. Qed.
+  Lemma vref_lt A (l : list A) i : i < List.length l -> vref l i = Ok i.
+  Proof. intros L. apply vref_inv; auto. Qed.
+
+  (* ---- tactics that do not look at the SHAPE of the generated code ----
+     cmp_norm: every comparison of naturals in the goal that the Prop facts of the context decide is replaced by its
+     value, whatever its spelling (a <=? b, negb (b <? a), b >= a written with the operands swapped, ...);
+     one first case-splits on the fact (Nat.le_gt_cases ...), never on a boolean expression of the generated code. *)
+  Ltac cmp_norm :=
+    repeat match goal with
+           | |- context [?a <=? ?b] => first [ rewrite (proj2 (Nat.leb_le a b)) by lia | rewrite (proj2 (Nat.leb_gt a b)) by lia ]
+           | |- context [?a <? ?b] => first [ rewrite (proj2 (Nat.ltb_lt a b)) by lia | rewrite (proj2 (Nat.ltb_ge a b)) by lia ]
+           | |- context [?a =? ?b] => first [ rewrite (proj2 (Nat.eqb_eq a b)) by lia | rewrite (proj2 (Nat.eqb_neq a b)) by lia ]
+           end; cbn [negb andb orb].
+  (* the cell idx of the vector exists (N : nth_error l idx = Some e0, L : idx < length l): every bounds-checked access to
+     that cell, in either program and wherever it stands, is replaced by its value *)
+  Ltac vec N L :=
+    repeat (first [ rewrite (proj2 (vget_inv _ _ _ _) N)
+                  | rewrite vref_lt by exact L
+                  | rewrite vget_upd by exact L
+                  | rewrite vset_upd by exact L
+                  | rewrite vset_lt by exact L ];
+            cbn [bind]; proj).
+  (* the cell idx does not exist (N : nth_error l idx = None): both programs stop at their first access to it *)
+  Ltac vec_none N :=
+    apply nth_error_None in N; unfold vref, vget, vset; proj;
+    repeat match goal with |- context [nth_error ?l ?i] => rewrite (proj2 (nth_error_None l i)) by exact N end;
+    cmp_norm; simpl; auto.
+  (* a call of do_access somewhere in the goal: its bridge lemma, with both states in normal form, goes in front *)
+  Ltac setters := unfold set_ll_cap, set_ll_used, set_ll_end, set_ll_list, set_ll_elems, set_ll_index, set_le_keyed, set_le_pos, set_le_val in *;
+                  cbn [ll_cap ll_elems ll_index ll_list ll_end ll_used le_keyed le_pos le_val] in *.
+  Ltac use_access L :=
+    match goal with |- context [g_do_access ?st ?i] =>
+      let P := fresh "P" in pose proof (g_do_access_ok st i) as P; setters;
+      rewrite vget_upd in P by exact L; cbn [bind] in P; revert P end.
 
   Lemma g_do_insert_ok (s : lrul K V) k v :
     assoc k (ll_index s) = None -> req (g_do_insert s k v) (ll_do_insert true s k v).
   Proof.
     intros A. unfold g_do_insert, ll_do_insert.
-    apply req_bind.
-    - destruct (List.length (ll_elems s) <=? ll_used s); [|simpl; auto].
-      callee (g_do_prune_ok s). unfold bind. crush; finish.
-    - intros s1 E1.
-      assert (A1 : assoc k (ll_index s1) = None).
-      { destruct (List.length (ll_elems s) <=? ll_used s); [|inversion E1; subst; auto].
-        pose proof (g_do_prune_ok s) as P. unfold bind in E1.
-        destruct (g_do_prune s) eqn:G; [|discriminate]. inversion E1; subst.
-        destruct (ll_do_prune s) eqn:L; simpl in P; [|contradiction]. subst.
-        eapply ll_do_prune_keeps_absent; eauto. }
-      apply req_bind; [apply req_refl|]. intros idx Ed.
-      unfold umap_emplace. rewrite A1.
-      apply req_bind; [apply req_refl|]. intros ix Ex. proj.
-      unfold vref. unfold vset at 4. 
-      destruct (nth_error (ll_elems s1) idx) as [e0|] eqn:N.
-      2:{ apply nth_error_None in N. apply Nat.ltb_ge in N. rewrite N. simpl. auto. }
-      assert (L : idx < List.length (ll_elems s1)) by (apply nth_error_Some; congruence).
-      cbn [bind]. rewrite (proj2 (vget_inv _ _ _ _) N). cbn [bind].
-      rewrite vset_lt by auto. cbn [bind]. proj.
-      rewrite vget_upd by auto. cbn [bind]. rewrite vset_upd by auto. cbn [bind]. proj.
-      rewrite vget_upd by auto. cbn [bind]. rewrite vset_upd by auto. cbn [bind]. proj.
-      apply Nat.ltb_lt in L. rewrite L. cbn [bind].
-      apply req_bind; [apply req_refl|]. intros ne En. proj.
-      unfold set_ll_used, set_ll_end, set_ll_elems, set_ll_index, set_le_keyed, set_le_pos, set_le_val.
-      cbn [ll_cap ll_elems ll_index ll_list ll_end ll_used le_keyed le_pos le_val]. rewrite ?Nat.add_1_r. simpl. reflexivity.
+    (* the prune step: split on the FACT size() <= m_used_size, then the generated condition reduces in any spelling *)
+    match goal with |- req (bind ?x _) (bind ?y _) => assert (R0 : req x y) end.
+    { destruct (Nat.le_gt_cases (List.length (ll_elems s)) (ll_used s)); cmp_norm; [|simpl; auto].
+      callee (g_do_prune_ok s). unfold bind. crush; finish. }
+    apply req_bind; [exact R0|]. intros s1 E1. rewrite E1 in R0. apply req_sym, req_ok in R0.
+    assert (A1 : assoc k (ll_index s1) = None).
+    { destruct (List.length (ll_elems s) <=? ll_used s); [|inversion R0; subst; auto].
+      eapply ll_do_prune_keeps_absent; eauto. }
+    clear R0 E1.
+    destruct (l_deref (ll_list s1) (ll_end s1)) as [idx|] eqn:Ed; cbn [bind]; [|simpl; auto].
+    unfold umap_emplace. rewrite ?A1.
+    destruct (index_emplace (ll_cap s1) (ll_index s1) k idx) as [ix|] eqn:Ex; cbn [bind]; [|simpl; auto]. proj.
+    destruct (nth_error (ll_elems s1) idx) as [e0|] eqn:N; [|vec_none N].
+    assert (L : idx < List.length (ll_elems s1)) by (apply nth_error_Some; congruence).
+    vec N L.
+    destruct (l_next (ll_list s1) (ll_end s1)) as [ne|] eqn:En; cbn [bind]; [|simpl; auto]. proj.
+    rewrite ?Nat.add_1_r.       (* m_used_size += 1 / m_used_size++ for ++m_used_size *)
+    setters. simpl. reflexivity.
   Qed.
 
   Lemma g_do_update_ok (s : lrul K V) k idx v :
     assoc k (ll_index s) = Some idx -> req (g_do_update s (Some k) v) (ll_do_update true s idx v).
   Proof.
-    intros A. unfold g_do_update, ll_do_update, mit_second. rewrite A. cbn [bind]. unfold vref, vget at 2.
-    destruct (nth_error (ll_elems s) idx) as [e0|] eqn:N; [|simpl; auto].
+    intros A. unfold g_do_update, ll_do_update, mit_second. rewrite ?A. cbn [bind].
+    destruct (nth_error (ll_elems s) idx) as [e0|] eqn:N; [|vec_none N].
     assert (L : idx < List.length (ll_elems s)) by (apply nth_error_Some; congruence).
-    cbn [bind]. rewrite (proj2 (vget_inv _ _ _ _) N). cbn [bind].
-    rewrite !vset_lt by auto. cbn [bind].
-    match goal with |- req (bind (g_do_access ?st ?i) _) _ => pose proof (g_do_access_ok st i) as P end.
-    unfold set_ll_elems, set_le_val in *. cbn [ll_cap ll_elems ll_index ll_list ll_end ll_used le_keyed le_pos le_val] in *.
-    rewrite vget_upd in P by auto. cbn [bind] in P.
-    revert P. unfold req, bind. crush; finish.
+    vec N L.
+    use_access L. unfold req, bind. crush; finish.
   Qed.
 
-  Lemma mit_find_some (ix : list (K * nat)) k : negb (mit_eqb (mit_find ix k) None) = match assoc k ix with Some _ => true | None => false end.
-  Proof. unfold mit_find. destruct (assoc k ix); reflexivity. Qed.
+  (* the index lookup: split on the FACT assoc k ix = Some idx / None; then `it == end()`, `it != end()`,
+     `end() != it`, an early return on the miss ... all reduce by computation *)
+  Ltac lookup A := unfold mit_find, mit_second; cbn [mit_eqb negb bind]; rewrite ?A; cbn [mit_eqb negb bind].
 
   Lemma g_do_insert_update_ok (s : lrul K V) k v a : req (g_do_insert_update s k v a) (ll_ins true s k v a).
   Proof.
-    unfold g_do_insert_update, ll_ins. rewrite mit_find_some. unfold mit_find.
-    destruct (assoc k (ll_index s)) as [idx|] eqn:A.
-    - destruct (a_upd a); [|simpl; auto].
-      callee (g_do_update_ok s k idx v A). unfold bind. crush; finish.
-    - destruct (a_ins a); [|simpl; auto].
-      callee (g_do_insert_ok s k v A). unfold bind. crush; finish.
+    unfold g_do_insert_update, ll_ins.
+    destruct (assoc k (ll_index s)) as [idx|] eqn:A; lookup A.
+    - callee (g_do_update_ok s k idx v A). destruct (a_upd a); cbn [negb]; unfold bind; crush; finish.
+    - callee (g_do_insert_ok s k v A). destruct (a_ins a); cbn [negb]; unfold bind; crush; finish.
   Qed.
+
+  Lemma ll_access_elems (s s' : lrul K V) e : ll_access true s e = Ok s' -> ll_elems s' = ll_elems s.
+  Proof. unfold ll_access, bind. crush; intros Q; clean; try discriminate; auto. Qed.
 
   Lemma g_do_find_ok (s : lrul K V) k pk : req (g_do_find s k pk) (ll_find true s k pk).
   Proof.
-    unfold g_do_find, ll_find. rewrite mit_find_some. unfold mit_find, mit_second.
-    destruct (assoc k (ll_index s)) as [idx|] eqn:A; [|simpl; auto]. rewrite A. cbn [bind].
-    pose proof (g_do_access_ok s idx) as P. revert P.
-    unfold vref, vget. destruct (nth_error (ll_elems s) idx) as [e0|] eqn:N; [|simpl; auto]. cbn [bind].
-    destruct pk; cbn [Bool.eqb]; cbn [bind].
-    - intros _. rewrite N. simpl. auto.
+    unfold g_do_find, ll_find.
+    destruct (assoc k (ll_index s)) as [idx|] eqn:A; lookup A; [|simpl; auto].
+    destruct (nth_error (ll_elems s) idx) as [e0|] eqn:N; [|vec_none N].
+    assert (L : idx < List.length (ll_elems s)) by (apply nth_error_Some; congruence).
+    pose proof (g_do_access_ok s idx) as P. rewrite (proj2 (vget_inv _ _ _ _) N) in P. cbn [bind] in P. revert P.
+    vec N L.
+    destruct pk; cbn [Bool.eqb negb bind]; vec N L.
+    - intros _. simpl. auto.
     - unfold req, bind.
-      destruct (g_do_access s idx) as [s1|] eqn:G, (ll_access true s e0) as [s2|] eqn:L; intros P; try contradiction; auto.
-      subst s2. assert (Q : ll_elems s1 = ll_elems s).
-      { unfold ll_access, bind in L. revert L. crush; intros Q; clean; try discriminate; auto. }
-      rewrite Q, N. auto.
+      destruct (g_do_access s idx) as [s1|] eqn:G, (ll_access true s e0) as [s2|] eqn:Q; intros P; try contradiction; auto.
+      subst s2. apply ll_access_elems in Q. unfold vget. rewrite Q, N. auto.
   Qed.
 
   Lemma g_erase_ok (s : lrul K V) k : req (g_erase s k) (ll_erase s k).
   Proof.
-    unfold g_erase, ll_erase. rewrite mit_find_some. unfold mit_find, mit_second.
-    destruct (assoc k (ll_index s)) as [idx|] eqn:A; [|simpl; auto]. rewrite A. cbn [bind].
+    unfold g_erase, ll_erase.
+    destruct (assoc k (ll_index s)) as [idx|] eqn:A; lookup A; [|simpl; auto].
     callee (g_do_erase_ok s idx). unfold bind. crush; finish.
   Qed.
 
@@ -202,9 +227,9 @@ Section MruBridge.
     match goal with |- req (bind (foldM ?F _ _) _) _ =>
       assert (G : forall l s n, req (foldM F l (s, n)) (ll_erase_range s l n)) end.
     { clear. induction l as [|k r IH]; intros s n; simpl; auto.
-      rewrite mit_find_some. unfold ll_erase, mit_find, mit_second.
-      destruct (assoc k (ll_index s)) as [idx|] eqn:A; cbn [bind]; [|apply IH].
-      rewrite A. cbn [bind]. callee (g_do_erase_ok s idx).
+      unfold ll_erase.
+      destruct (assoc k (ll_index s)) as [idx|] eqn:A; lookup A; [|apply IH].
+      callee (g_do_erase_ok s idx).
       destruct (g_do_erase s idx) as [s1|], (ll_do_erase s idx) as [s2|]; simpl; intros P; try contradiction; auto.
       subst. apply IH. }
     specialize (G l s 0). revert G.
